@@ -84,6 +84,25 @@ def _typed_job(job):
     return {"row": [_typed_obs(c) for c in data], "raw": repr(data)[:200], "words": words, "nlines": len(lines)}
 
 
+def _typed_header_job(fmt):
+    import io
+    from ..docrun import EXTRACTOR, render
+    from ..repo import activate
+    activate()
+    import warnings
+    warnings.simplefilter("ignore")
+    import sharepoint2text
+    book = {"kind": "book", "sheets": [{"name": "H", "rows": [[["n", 7], ["n", 1.5], ["n", 0]], [["s", 1], ["s", 2], ["s", 3]]]}]}
+    try:
+        r = next(getattr(sharepoint2text, EXTRACTOR[fmt])(io.BytesIO(render(book, fmt)), "h." + fmt))
+        tables = [t.get_table() for t in r.iterate_tables()]
+    except Exception as e:
+        return {"exc": f"{type(e).__name__}: {e}"[:200]}
+    if len(tables) != 1 or not tables[0]:
+        return {"exc": f"tables: {tables!r}"[:200]}
+    return {"row": [_typed_obs(c) for c in tables[0][0]], "raw": repr(tables[0][0])[:200]}
+
+
 def _typed_grid_job(kinds):
     import io
     from ..docrun import render
@@ -145,6 +164,14 @@ def typed_values(ctx):
                        "raw": o["raw"] + " text " + " ".join(o["words"]),
                        "ev": [{"a": "Typed", "kinds": eff, "row": o["row"]}]
                              + ([{"a": "TypedText", "kinds": eff, "words": o["words"]}] if o["nlines"] >= 3 else [])})
+    # numbers in the header row (year columns)
+    for fmt in ("xlsx", "ods", "xls"):
+        o = _typed_header_job(fmt)
+        if "exc" in o:
+            ctx.v.violation(what=f"{fmt}: sheet with a numeric header row could not be read back: {o['exc']}", case={"fmt": fmt})
+            continue
+        traces.append({"id": f"typedheader:{fmt}", "hdr": {"fmt": fmt, "doc": {"units": [], "header": [], "footer": []}}, "raw": o["raw"],
+                       "ev": [{"a": "TypedHeader", "kinds": ["n", "nf", "z"], "row": o["row"]}]})
     # header-less grids whose last column may hold only falsy values (ODS keeps every row as data)
     grids = gen_units(ctx, "typedgrid", 1)
     gjobs = [[[str(k) for k in row] for row in u[0]] for u in grids]
@@ -401,6 +428,22 @@ def run(ctx):
     rng = random.Random(ctx.seed)
     jobs, ndocs = build_jobs(ctx, rng, two_block_sample=1400)
     jobs = [j for j in jobs if j["fmt"] in TABLE_FORMATS]
+    # documents that hold the SAME table several times (a legend repeated before and after the data, trivial 1 x 1
+    # tables): every copy is a table of its own.  Token ids repeat here on purpose (only the table clauses are evaluated).
+    from ..docrun import expressible, flow_doc
+    def cell(i):
+        return [["p", [["r", i]]]]
+    legend = ["tbl", [[cell(1), cell(2)], [cell(3), cell(4)]]]
+    one = ["tbl", [[cell(5)]]]
+    for blocks in ([legend, ["p", [["r", 9]]], legend], [one, ["p", [["r", 9]]], one, ["p", [["r", 8]]], one],
+                   [legend, ["p", [["r", 9]]], one, ["p", [["r", 8]]], legend]):
+        d = flow_doc(blocks)
+        jobs += [{"doc": d, "fmt": f} for f in FLOW_FORMATS if f in TABLE_FORMATS and expressible(d, f)]
+    tbl = ["tbl", [[[[["r", 1]]], [[["r", 2]]]], [[[["r", 3]]], [[["r", 4]]]]]]
+    deck = {"kind": "deck", "slides": [{"shapes": [tbl, ["text", [[["r", 9]]]], tbl], "notes": []},
+                                       {"shapes": [tbl], "notes": []}]}
+    jobs += [{"doc": deck, "fmt": f} for f in ("pptx", "odp")]
+    ndocs += 4
     ctx.log(f"{ndocs} documents, {len(jobs)} (document, format) extractions")
     traces = run_suite(ctx, jobs, _events, "tables")
     for t in traces:
